@@ -157,7 +157,8 @@ def run(ctx):
   ctx.info["lattice_size"] = len(cfgs) if ctx.idx == 0 else 0
   mx = 0.0
   for cfg in ctx.shard(cfgs):
-    xs = G.walk(cfg)
+    mm = G.model(cfg)
+    xs = G.walk(cfg, mm, full=(mm["kmax"] - mm["kmin"]) <= 70000)
     st = {}
     fails = oracle(cfg, xs, stats=st)
     mx = max(mx, st.pop("max_excess_ulps", 0.0))
@@ -190,7 +191,8 @@ def run(ctx):
 def replay(ctx, case):
   cfg = case["cfg"]
   if case.get("walk"):
-    fails = oracle(cfg, G.walk(cfg))
+    m = G.model(cfg)
+    fails = oracle(cfg, G.walk(cfg, m, full=(m["kmax"] - m["kmin"]) <= 70000))
   else:
     fails = oracle(cfg, case["xs"], shape=case.get("shape"))
   ctx.tick(case, labels=["replay"])
